@@ -8,9 +8,11 @@
    each registered output callback in order (a raising callback is logged and
    skipped) - End (deregister, close = remove log handler, drop executor,
    return outcome = PASS or re-raise KeyboardInterrupt).
-   An overlapping execute() on the same object (from another thread, here from
-   inside a phase body) must be refused with InvalidTestStateError and must
-   disturb nothing. *)
+   An overlapping execute() on the same object - issued while the test runs
+   (overlap = "start": from inside the test_start phase body) or while the first
+   call is already finalizing (overlap = "cb": from inside the first output
+   callback, the executor thread has ended by then) - must be refused with
+   InvalidTestStateError and must disturb nothing. *)
 EXTENDS Naturals, Sequences, FiniteSets, TLC
 
 CONSTANTS Paths,     \* exit paths of a run
@@ -37,7 +39,7 @@ OutcomeOf(p) == CASE p = "pass" -> "PASS" [] p = "fail" -> "FAIL" [] p = "stop" 
                   [] p = "plug_fail" -> "ERROR" [] p = "timeout" -> "TIMEOUT"
                   [] p = "abort" -> "ABORTED" [] p = "sigint" -> "ABORTED"
 
-NoRun == [path |-> "", raises |-> {}, overlap |-> FALSE, dut |-> FALSE]
+NoRun == [path |-> "", raises |-> {}, overlap |-> "none", dut |-> FALSE]
 
 Init == /\ slot = 0 /\ reg = {} /\ hnd = {} /\ st = "idle" /\ cur = NoRun
         /\ cbi = 0 /\ cbs = <<>> /\ nruns = 0 /\ refused = 0 /\ hist = <<>>
@@ -52,17 +54,20 @@ Begin(p, rs, ov, dut) ==
 
 \* a second execute() while one is running: refused, nothing changes
 Overlap ==
-  /\ st = "running" /\ cur.overlap /\ refused = 0
+  /\ \/ (st = "running" /\ cur.overlap = "start")
+     \/ (st = "cb" /\ cur.overlap = "cb" /\ cbi = 2)       \* during the first output callback
+  /\ refused = 0
   /\ refused' = 1
   /\ UNCHANGED <<slot, reg, hnd, st, cur, cbi, cbs, nruns, hist>>
 
 Finalize ==
-  /\ st = "running" /\ (cur.overlap => refused = 1)
+  /\ st = "running" /\ (cur.overlap = "start" => refused = 1)
   /\ st' = "cb"
   /\ UNCHANGED <<slot, reg, hnd, cur, cbi, cbs, nruns, refused, hist>>
 
 Callback ==
   /\ st = "cb" /\ cbi <= NCb
+  /\ (cur.overlap = "cb" /\ cbi = 2) => refused = 1
   /\ cbs' = Append(cbs, <<cbi, IF cbi \in cur.raises THEN "raises" ELSE "ok">>)
   /\ cbi' = cbi + 1
   /\ UNCHANGED <<slot, reg, hnd, st, cur, nruns, refused, hist>>
@@ -78,7 +83,7 @@ End ==
                            cbs |-> cbs, refused |-> refused])
   /\ UNCHANGED nruns
 
-Next == \/ \E p \in Paths, rs \in RaiseSets, ov \in BOOLEAN, dut \in Duts : Begin(p, rs, ov, dut)
+Next == \/ \E p \in Paths, rs \in RaiseSets, ov \in {"none", "start", "cb"}, dut \in Duts : Begin(p, rs, ov, dut)
         \/ Overlap \/ Finalize \/ Callback \/ End
 
 Spec == Init /\ [][Next]_vars
